@@ -38,6 +38,7 @@ type c05Run struct {
 	Base       string `json:"base_branch,omitempty"`
 	NoChange   bool   `json:"branch_without_changes,omitempty"`
 	JSONExists bool   `json:"json_file_exists"`
+	PanicIn    string `json:"panic_in,omitempty"` // "verifyOwners" when the (untruncated) stack trace of a panic names main.verifyOwners
 	Exit     int          `json:"exit"`
 	Stderr   string       `json:"stderr_tail,omitempty"`
 }
@@ -313,6 +314,9 @@ func runC05(args []string) int {
 		}
 		rc, _, se := runPint(wd, a...)
 		ru.Exit = rc
+		if strings.Contains(se, "panic:") && strings.Contains(se, "main.verifyOwners(") {
+			ru.PanicIn = "verifyOwners"
+		}
 		if len(se) > 300 {
 			se = se[len(se)-300:]
 		}
@@ -382,7 +386,7 @@ func runC05(args []string) int {
 		}
 		rep.Cases[fmt.Sprint(ru.ID)] = map[string]any{"run": ru, "scenario": scen[ru.Scenario]}
 		// implementation-level oracle: the property as written
-		if ru.Exit == 2 && ru.RequireOwner && c05UnownedBrokenRule(scen[ru.Scenario]) && strings.Contains(ru.Stderr, "panic") {
+		if ru.Exit == 2 && ru.RequireOwner && c05UnownedBrokenRule(scen[ru.Scenario]) && ru.PanicIn == "verifyOwners" {
 			// known finding: verifyOwners dereferences the (nil) last key of a rule that failed to parse
 			rep.hist("known=C05-require-owner-broken-rule-crash")
 			rep.failKnown(fmt.Sprint(ru.ID), "pint panics in verifyOwners: --require-owner with a rule that failed to parse", map[string]any{"run": ru, "scenario": scen[ru.Scenario]}, "C05-require-owner-broken-rule-crash")
